@@ -161,8 +161,8 @@ func replayC16(raw json.RawMessage) (string, error) {
 func runC16(r *report.Run) {
 	thorough := r.Tier == "thorough"
 	variants := asmVariants()
-	mk := func(withSlack bool) func(v asmVariant, al []asmOp, idx []int) (string, string, int) {
-		return func(v asmVariant, al []asmOp, idx []int) (string, string, int) {
+	mk := func(withSlack bool) func(v asmVariant, al []asmOp, idx []int) (string, string, int, *asmHistory) {
+		return func(v asmVariant, al []asmOp, idx []int) (string, string, int, *asmHistory) {
 			ops := make([]asmOp, len(idx))
 			for i, k := range idx {
 				ops[i] = al[k]
@@ -176,11 +176,11 @@ func runC16(r *report.Run) {
 				for _, slack := range slacks {
 					n++
 					if d := c16Run(v, ops, split, slack); d != "" {
-						return "unexplained:clone-append", fmt.Sprintf("%+v %v split %d slack %d: %s", v, historyNames(al, idx), split, slack, d), n
+						return "unexplained:clone-append", fmt.Sprintf("%+v %v split %d slack %d: %s", v, historyNames(al, idx), split, slack, d), n, &asmHistory{Variant: v, Ops: historyNames(al, idx), Capacity: 512, Split: split}
 					}
 				}
 			}
-			return "", "", n
+			return "", "", n, nil
 		}
 	}
 	// stage 1: every variant, with the Append capacity edges; stage 2: deeper, on two variants
